@@ -129,7 +129,7 @@ def run_property(prop, modname, tier, seed, log=print):
         st = _state(res)
         rec = {
             "cond": c.name, "bounds": c.bounds, "state": st, "timeout": c.timeout,
-            "paths": res.get("paths", 0), "z3_queries": res.get("z3_queries", 0),
+            "paths": res.get("paths", 0), "reached": res.get("reached", 0), "z3_queries": res.get("z3_queries", 0),
             "z3_seconds": res.get("z3_seconds", 0.0), "z3_unknown": res.get("z3_unknown", 0),
             "wall": res.get("wall"), "exhaustive": False, "verdict": None,
         }
@@ -137,7 +137,8 @@ def run_property(prop, modname, tier, seed, log=print):
             log("  %s: inconclusive at %.0fs budget, re-running alone with 4x" % (c.name, c.timeout))
             res = _run_worker(modname, c, c.timeout * SCALE * 4)
             st = _state(res)
-            rec.update(state=st, paths=res.get("paths", 0), z3_queries=res.get("z3_queries", 0),
+            rec.update(state=st, paths=res.get("paths", 0), reached=res.get("reached", 0),
+                       z3_queries=res.get("z3_queries", 0),
                        z3_seconds=res.get("z3_seconds", 0.0), wall=res.get("wall"), retried=True)
         if st == "CONFIRMED":
             if c.expect == "refuted":
@@ -215,4 +216,7 @@ def run_property(prop, modname, tier, seed, log=print):
         log("  %-14s %-12s paths=%-5s z3q=%-6s z3s=%-7s wall=%ss %s" % (
             c.name, st, rec["paths"], rec["z3_queries"], rec["z3_seconds"], rec["wall"],
             "[VACUOUS]" if "vacuous" in str(rec["verdict"]) else ""))
+    if violations:
+        exit_code = EXIT_VIOLATION          # a reproduced violation is reported as such even if another
+        #                                     condition ended in a harness error
     return exit_code, records, violations
